@@ -1,5 +1,5 @@
 (* C14 — enumerations: construction, index and name agree for every integer. *)
-From GV Require Import Tables.ObsTypes Tables.Lookup Gen.Obs Tables.Enum Tables.EnumFacts.
+From GV Require Import Tables.ObsTypes Tables.Lookup Gen.ObsEnum Tables.Enum Tables.EnumFacts.
 
 (* for every factory and EVERY integer v *)
 Theorem C14_new_enum : forall e, In e obs_enums -> forall v : Z,
